@@ -1,8 +1,10 @@
 (** Correspondence cases for C10: Change / ChangeToAddress / ChangeToExistingOutput of the implementation
-    against model/Change.v — verdict, outputs afterwards, totals, estimated size and fee predicate afterwards. *)
+    against model/Change.v — verdict, outputs afterwards, totals, estimated size and fee predicate afterwards,
+    and what the caller's fee quote says after the call. *)
 From Coq Require Import List NArith Bool.
 From Coq Require Import Strings.Byte.
-From GoBT Require Import lib.Bytes lib.Hex lib.VarInt model.Tx gen.Consts spec.FeeSpec model.Fees model.Change corr.Corr corr.FeeCorr.
+From GoBT Require Import lib.Bytes lib.Hex lib.VarInt model.Tx gen.Consts spec.FeeSpec model.Fees model.Change corr.Corr corr.FeeCorr
+  proofs.ChangeDirect.
 Import ListNotations.
 Local Open Scope N_scope.
 
@@ -11,11 +13,21 @@ Inductive dest :=
 | DAddress (decoded : option bytes)      (* Tx.ChangeToAddress(addr, f); what NewP2PKHFromAddress(addr) yields *)
 | DExisting (idx : N).                   (* Tx.ChangeToExistingOutput(idx, f) *)
 
+(** [q] is the quote as it was handed in — for a call that is not the first one made with a quote object: as it was
+    handed to the FIRST of them; [q_after] is what the object says after this call.  In the model a quote is a value and
+    a change operation a function of it: the object must say [q] after every call, and every call made with it is
+    the model's call with [q]. *)
 Inductive case :=
 | CChange (t : tx) (q : quote) (d : dest) (hyp : bool)
           (res : obs bool)               (* ok: did the outputs change (= change was added) *)
           (outs_after : list output) (tin tout_after : N)
-          (est_after : obs (N * N * N)) (enough_after : obs bool).
+          (est_after : obs (N * N * N)) (enough_after : obs bool)
+          (q_after : quote)
+(** the same observation of a transaction too large for the byte-level parser inside Coq (tens of thousands of
+    outputs): evaluated without the serialise-and-reparse of Tx.Clone, see proofs/ChangeDirect.v *)
+| CChangeBig (t : tx) (q : quote) (d : dest) (hyp : bool)
+          (res : obs bool) (outs_after : list output) (tin tout_after : N)
+          (est_after : obs (N * N * N)) (enough_after : obs bool) (q_after : quote).
 
 Definition run (t : tx) (q : quote) (d : dest) : outcome bool * tx :=
   match d with
@@ -24,22 +36,65 @@ Definition run (t : tx) (q : quote) (d : dest) : outcome bool * tx :=
   | DExisting i => change_existing t q i
   end.
 
+Definition run_direct (t : tx) (q : quote) (d : dest) : outcome bool * tx :=
+  match d with
+  | DScript s => change_new_direct t q s
+  | DAddress a => change_to_address_direct t q a
+  | DExisting i => change_existing_direct t q i
+  end.
+
+Lemma run_direct_eq t q d : guard t = true -> run t q d = run_direct t q d.
+Proof.
+  intros G. destruct d; cbn [run run_direct].
+  - apply change_new_direct_eq; exact G.
+  - apply change_to_address_direct_eq; exact G.
+  - apply change_existing_direct_eq; exact G.
+Qed.
+
 Definition extra_of (d : dest) : N :=
   match d with DScript s | DAddress (Some s) => 21 + lenN s | _ => 0 end.
 
+Definition rate_eqb (a b : rate) : bool := (r_sat a =? r_sat b) && (r_bytes a =? r_bytes b).
+Definition opt_rate_eqb (a b : option rate) : bool :=
+  match a, b with Some x, Some y => rate_eqb x y | None, None => true | _, _ => false end.
+Definition quote_eqb (a b : quote) : bool := opt_rate_eqb (q_std a) (q_std b) && opt_rate_eqb (q_data a) (q_data b).
+
+(** what is compared once the call has been evaluated to [(r, t')] and [te] = estimatedFinalTx of [t'] *)
+Definition compare (t : tx) (q : quote) (d : dest) (hyp : bool) (r : outcome bool) (t' : tx) (te : outcome tx)
+    (res : obs bool) (outs : list output) (tin tout : N) (est : obs (N * N * N)) (en : obs bool) (qa : quote) : bool :=
+  obs_match Bool.eqb r res &&
+  list_eqb output_eqb (tx_outs t') outs &&
+  list_eqb input_eqb (tx_ins t') (tx_ins t) && (tx_version t' =? tx_version t) && (tx_lock t' =? tx_lock t) &&
+  (total_in t' =? tin) && (total_out t' =? tout) &&
+  (* estimate_size_with_types t' and estimate_is_fee_paid_enough t' q, sharing the one Clone they both start with *)
+  (obs_match n3_eqb (omap size3 (obind te (fun x => FOk (size_with_types x)))) est &&
+   obs_match Bool.eqb (obind te (fun x => is_fee_paid_enough x q)) en) &&
+  quote_eqb q qa &&
+  (if hyp then hyps_ok q t (extra_of d) else true).
+
+Definition check_plain t q d hyp res outs tin tout est en qa : bool :=
+  let '(r, t') := run t q d in
+  compare t q d hyp r t' (estimated_final_tx t') res outs tin tout est en qa.
+
+Definition check_direct t q d hyp res outs tin tout est en qa : bool :=
+  guard t &&
+  (let '(r, t') := run_direct t q d in
+   guard t' && compare t q d hyp r t' (estimated_final_tx_direct t') res outs tin tout est en qa).
+
+(** a large case accepted by the clone-free evaluation is accepted by the ordinary one *)
+Theorem check_direct_sound t q d hyp res outs tin tout est en qa :
+  check_direct t q d hyp res outs tin tout est en qa = true ->
+  check_plain t q d hyp res outs tin tout est en qa = true.
+Proof.
+  unfold check_direct, check_plain. intros H. apply andb_prop in H. destruct H as [G H].
+  rewrite (run_direct_eq t q d G). destruct (run_direct t q d) as [r t'].
+  apply andb_prop in H. destruct H as [G' H]. rewrite (est_direct_eq t' G'). exact H.
+Qed.
+
 Definition check (c : case) : bool :=
   match c with
-  | CChange t q d hyp res outs tin tout est en =>
-      let '(r, t') := run t q d in
-      obs_match Bool.eqb r res &&
-      list_eqb output_eqb (tx_outs t') outs &&
-      list_eqb input_eqb (tx_ins t') (tx_ins t) && (tx_version t' =? tx_version t) && (tx_lock t' =? tx_lock t) &&
-      (total_in t' =? tin) && (total_out t' =? tout) &&
-      (* estimate_size_with_types t' and estimate_is_fee_paid_enough t' q, sharing the one Clone they both start with *)
-      (let te := estimated_final_tx t' in
-       obs_match n3_eqb (omap size3 (obind te (fun x => FOk (size_with_types x)))) est &&
-       obs_match Bool.eqb (obind te (fun x => is_fee_paid_enough x q)) en) &&
-      (if hyp then hyps_ok q t (extra_of d) else true)
+  | CChange t q d hyp res outs tin tout est en qa => check_plain t q d hyp res outs tin tout est en qa
+  | CChangeBig t q d hyp res outs tin tout est en qa => check_direct t q d hyp res outs tin tout est en qa
   end.
 
 Definition mismatches := mismatches_with check.
